@@ -148,6 +148,11 @@ func (r *SimReader) Read(p []byte) (n int, err error) {
 				r.dead = true
 			}
 			return 0, ErrInjected
+		case "err-wrapeof":
+			// a transient failure whose error value wraps io.EOF without being it (a transport
+			// reporting "connection closed: EOF" once, then carrying on)
+			r.mark(f)
+			return 0, fmt.Errorf("sim: transport hiccup: %w", io.EOF)
 		case "trunc":
 			// lost tail: clean EOF from here on
 			r.Fired["trunc"]++
